@@ -102,6 +102,73 @@ def fresh_id_probe(ctx):
         st.close()
 
 
+def merged_orders(ctx, r):
+    """a pruned id stays gone whatever order a hand merge leaves the lines in: the tombstones first, the creating lines repeated after them,
+    the whole pruning branch ahead of the other one — no listing shows the item again, prune does not offer it again, nothing can be put under it"""
+    st = cmdrun.Store(ctx.ergo, ctx.go)
+    trace = []
+    try:
+        def ex(argv, stdin=None):
+            res = st.exec(argv, stdin); trace.append({"argv": argv, "stdin": None if stdin is None else stdin.decode(), "exit": res["exit"]}); return res
+        J = lambda d: json.dumps(d).encode()
+        e1 = json.loads(ex(["--json", "new", "epic"], J({"title": "finished epic"}))["stdout"])["id"]
+        c1 = json.loads(ex(["--json", "new", "task"], J({"title": "child", "epic": e1}))["stdout"])["id"]
+        e2 = json.loads(ex(["--json", "new", "epic"], J({"title": "emptied epic"}))["stdout"])["id"]
+        t1 = json.loads(ex(["--json", "new", "task"], J({"title": "loose, canceled"}))["stdout"])["id"]
+        keep = json.loads(ex(["--json", "new", "task"], J({"title": "still open"}))["stdout"])["id"]
+        ex(["--json", "set", c1], J({"state": "done"}))
+        ex(["--json", "set", t1], J({"state": "canceled"}))
+        if r.p(50):
+            ex(["--json", "sequence", t1, keep])
+        ex(["--json", "--agent", "p", "prune", "--yes"])
+        g = st.graph()
+        if "graph" not in g:
+            return
+        gone = sorted(g["graph"].get("tombs", []))
+        if not gone:
+            return
+        lines = st.log_bytes().split(b"\n")[:-1]
+        tomb = [l for l in lines if json.loads(l)["type"] == "tombstone"]
+        creates = [l for l in lines if json.loads(l)["type"] in ("new_task", "new_epic") and json.loads(l)["data"]["id"] in gone]
+        rest = [l for l in lines if l not in tomb]
+        order = r.pick(["tombstones first", "creating lines repeated after the tombstones", "creating lines moved after the tombstones", "everything about the pruned items after the tombstones"])
+        if order == "tombstones first":
+            new = tomb + rest
+        elif order == "creating lines repeated after the tombstones":
+            new = lines + creates
+        elif order == "creating lines moved after the tombstones":
+            new = [l for l in lines if l not in creates] + creates
+        else:
+            about = [l for l in rest if (json.loads(l).get("data") or {}).get("id") in gone or (json.loads(l).get("data") or {}).get("task_id") in gone]
+            new = [l for l in rest if l not in about] + tomb + about
+        with open(st.log_path(), "wb") as f:
+            f.write(b"\n".join(new) + b"\n")
+        trace.append({"edit": "log rewritten as a hand merge would leave it: %s" % order, "pruned": gone})
+        ctx.count(1, key=("merged-order", order))
+        def check(when):
+            for argv in (["--json", "list", "--all"], ["--json", "list", "--epics"], ["--json", "list"]):
+                out = st.exec(argv)
+                if out["exit"] != 0:
+                    return      # a log the tool refuses to read shows nothing: not this property's business
+                seen = {x.get("id") for x in json.loads(out["stdout"] or "[]")} & set(gone)
+                if seen:
+                    ctx.violation("C09 pruned item is back (%s)" % order, "%s lists %s %s, pruned earlier in this log" % (" ".join(argv), sorted(seen), when), {"trace": trace}); return True
+            dry = st.exec(["--json", "prune"])
+            if dry["exit"] == 0 and set(json.loads(dry["stdout"]).get("pruned_ids") or []) & set(gone):
+                ctx.violation("C09 prune offers a pruned item again (%s)" % order, "dry run names %s %s" % (sorted(set(json.loads(dry["stdout"]).get("pruned_ids")) & set(gone)), when), {"trace": trace}); return True
+            return False
+        if check("after the merge"):
+            return
+        for pe in [x for x in gone if x in (e1, e2)][:1]:
+            res = ex(["--json", "new", "task"], J({"title": "under a pruned epic", "epic": pe}))
+            if res["exit"] == 0:
+                ctx.violation("C09 pruned epic accepts a child (%s)" % order, "new task with epic=%s (pruned) exited 0" % pe, {"trace": trace}); return
+        ex(["--json", "compact"])
+        check("after compact")
+    finally:
+        st.close()
+
+
 def run(ctx):
     framework.check_facts(ctx, ctx.facts, ["lock_sites", "writer_calls", "with_lock"])
     import os
@@ -113,6 +180,8 @@ def run(ctx):
         ctx.tie_broken("T2-fn replay", {"first_difference": fndiff.first_difference(d["go"], d["model"]), "req": d["req"]})
     fresh_id_probe(ctx)
     r = gen.Rng(ctx.seed * 1000003 + 9)
+    for i in range(8 if ctx.quick else 100):
+        merged_orders(ctx, r.fork())
     for h in range(20 if ctx.quick else 300):
         run_history(ctx, r.fork(), 40, WEIGHTS, make_oracle(Tracker()))
     # prune against a concurrent writer that reopens / adds work: the set removed must be the policy's set for the log prune decided on
